@@ -683,6 +683,37 @@ def trims_frame(m, fn, _seen=None):
     return True
 
 
+def rule_free_count_writers(res, rid, m):
+    """The free-byte count says how much of the *last* frame is unused; the trim before the next frame
+    computes the used bytes from it.  So it may only change by: the opener's `max - sizeof(CmpHeader)`,
+    the decrements that accompany a write, and a reset to a constant that is preceded (same block) by the
+    trim of the current frame or accompanied by clearing the frame list — zeroing it while an untrimmed
+    frame is open makes the next trim a no-op (frame stays at maximum size, padded with zeros)."""
+    n = 0
+    trims = {c["id"]: ff for ff, c, kind in frame_resizes(m) if kind == "frame"}
+    for f, kind, node in m.writes.get(m.bytesLeft, []):
+        if kind != "assign" or const_value(node["r"]) is None:
+            continue
+        n += 1
+        cfg = f.cfg
+        b = cfg.block_for(node)
+        pos = cfg.pos_of[node["id"]]
+        trimmed = any(ff is f and cfg.block_for(f.node(cid)) == b and cfg.pos_of[cid] < pos for cid, ff in trims.items())
+        # a call (before, same block or dominating) of a method that trims on every path counts too
+        for c in f.calls():
+            g = m.fb.resolve_call(c)
+            if g is not None and g.rec == ENC and g is not f and g is not m.opener and trims_frame(m, g) and \
+                    ((cfg.block_for(c) == b and cfg.pos_of[c["id"]] < pos) or (cfg.block_for(c) != b and cfg.dominates(cfg.block_for(c), b))):
+                trimmed = True
+        cleared = any(ff is f and k == "call:clear" and isinstance(x, dict) and strip_all_casts(x.get("obj", {})).get("field") == m.frames
+                      for ff, k, x in m.writes.get(m.frames, []))
+        res.check(trimmed or cleared, rid, "free-count:%s:reset" % f.name.split("::")[-1], node.get("loc"),
+                  "free count reset to %d right after the frame was trimmed" % const_value(node["r"]) if trimmed else "free count reset together with clearing the frame list",
+                  "%s sets the free-byte count to %d while the last frame may be open and untrimmed: the trim in the frame opener then keeps the frame at "
+                  "its maximum size (zero padding beyond the minimum, messages no longer tile the frame)" % (f.name, const_value(node["r"])))
+    return n
+
+
 def rule_frames_zeroed_trimmed(res, rid, m):
     rs = frame_resizes(m)
     nt = nf = 0
@@ -1148,6 +1179,13 @@ def rule_writes_inside_frame(res, rid, m):
                 a = strip_all_casts(a)
                 if a.get("k") == "bin" and a.get("op") == "-" and strip_all_casts(a["l"]).get("field") == m.bytesLeft and (const_value(a["r"]) or 0) >= hdr:
                     okmin = True
+                    # the room must reach min() at full width: the frame may be larger than 64 KiB, only the result is bounded by the payload length
+                    room_arg = [x for x in e.get("args", []) if strip_all_casts(x) is a or strip_all_casts(x).get("id") == a.get("id")]
+                    nar = [x for x in (walk(room_arg[0]) if room_arg else []) if x.get("k") == "cast" and x.get("ck") == "IntegralCast" and
+                           ((x.get("t") or {}).get("bits", 64) < 32) and const_value(x) is None]
+                    res.check(not nar, rid, "chunk:room-at-full-width", c.get("loc"), "free - %d reaches min() without narrowing" % hdr,
+                              "the room left in the frame is converted to %s bits before min(): with frames larger than 64 KiB it wraps and a packet that "
+                              "fits is cut into pieces that are all flagged unsegmented" % ((nar[0].get("t") or {}).get("bits") if nar else "?"))
     res.check(okmin, rid, "chunk:bounded-by-room", c.get("loc"), "chunk = min(free - %d, ...)" % hdr,
               "the chunk length is not bounded by the free bytes minus the %d-byte message header" % hdr)
     decs = [x for x in m.header_writer.nodes() if x.get("k") == "cassign" and x.get("op") == "-" and lvalue_root(x["l"]) == m.bytesLeft]
